@@ -1,4 +1,5 @@
 import ESV.Comp.LabSem
+import ESV.Comp.Lemmas
 import ESV.Comp.BackSemSim
 /-
 Back-end correctness, framework for the labelled-code → labelled-code passes (LabelFinalizer's jump removal,
